@@ -446,7 +446,7 @@ func (env *Env) index(v Val, ie Expr) Val {
 	switch t := v.G.T.Underlying().(type) {
 	case *types.Slice:
 		i := env.adapt(env.tr(ie), tInt)
-		return Val{S: fmt.Sprintf("(select (select %s (s.arr %s)) (+ (s.off %s) %s))", env.ex.compGet(env.st, g.arrComp(t.Elem())), v.S, v.S, env.ex.toMathInt(i.S, types.Typ[types.Int])), G: GType{T: t.Elem()}}
+		return Val{S: fmt.Sprintf("(select (select %s (s.arr %s)) (sl.ix %s %s))", env.ex.compGet(env.st, g.arrComp(t.Elem())), v.S, v.S, env.ex.toMathInt(i.S, types.Typ[types.Int])), G: GType{T: t.Elem()}}
 	case *types.Array:
 		i := env.adapt(env.tr(ie), tInt)
 		return Val{S: fmt.Sprintf("(select %s %s)", v.S, i.S), G: GType{T: t.Elem()}}
@@ -457,7 +457,7 @@ func (env *Env) index(v Val, ie Expr) Val {
 	case *types.Basic:
 		g.needByteAt()
 		i := env.adapt(env.tr(ie), tInt)
-		return Val{S: env.ex.byteVal(fmt.Sprintf("(str.at %s %s)", v.S, i.S)), G: GType{T: types.Typ[types.Uint8]}}
+		return Val{S: env.ex.byteVal(fmt.Sprintf("(st.at %s %s)", v.S, i.S)), G: GType{T: types.Typ[types.Uint8]}}
 	}
 	sfail("cannot index %s", v.G.T)
 	return Val{}
@@ -657,7 +657,7 @@ func (env *Env) call(c *ECall) Val {
 			}
 			return Val{env.ex.fromMathInt(fmt.Sprintf("(%s %s)", f, v.S)), tInt}
 		case *types.Basic:
-			return Val{env.ex.fromMathInt(fmt.Sprintf("(str.len %s)", v.S)), tInt}
+			return Val{env.ex.fromMathInt(fmt.Sprintf("(st.len %s)", v.S)), tInt}
 		case *types.Map:
 			_, _, ln := env.ex.mapTerms(env.st, v.S, t)
 			return Val{env.ex.fromMathInt(fmt.Sprintf("(ite (= %s 0) 0 %s)", v.S, ln)), tInt}
@@ -685,7 +685,7 @@ func (env *Env) call(c *ECall) Val {
 		}
 		xv := env.adapt(env.value(arg(1)), GType{T: st.Elem()})
 		arr := fmt.Sprintf("(select %s (s.arr %s))", env.ex.compGet(env.st, g.arrComp(st.Elem())), s.S)
-		return Val{fmt.Sprintf("(exists ((ei Int)) (! (and (<= 0 ei) (< ei (s.len %s)) (= (select %s (+ (s.off %s) ei)) %s)) :pattern ((select %s (+ (s.off %s) ei)))))", s.S, arr, s.S, xv.S, arr, s.S), tBool}
+		return Val{fmt.Sprintf("(exists ((ei Int)) (! (and (<= 0 ei) (< ei (s.len %s)) (= (select %s (sl.ix %s ei)) %s)) :pattern ((select %s (sl.ix %s ei)))))", s.S, arr, s.S, xv.S, arr, s.S), tBool}
 	case "union", "minus", "inter":
 		need(2)
 		a, b := arg(0), arg(1)
@@ -793,6 +793,22 @@ func (env *Env) call(c *ECall) Val {
 			return env.adapt(v, to)
 		}
 		return Val{env.ex.convert(v.G.T, to.T, v.S), to}
+	case "box":
+		need(1)
+		v := env.value(arg(0))
+		if v.G.Unt || v.G.T == nil {
+			sfail("box() needs a typed value")
+		}
+		return Val{env.ex.makeIface(v.G.T, v.S), GType{T: types.NewInterfaceType(nil, nil)}}
+	case "unbox":
+		need(2)
+		v := arg(0)
+		te, err := parseTypeString(c.Args[1].String())
+		if err != nil {
+			sfail("unbox(x, T): %v", err)
+		}
+		gt := env.resolveType(te)
+		return Val{env.ex.unboxIface(gt.T, v.S), gt}
 	case "dynType":
 		need(1)
 		v := arg(0)
